@@ -4,6 +4,6 @@ CONSTANTS
   U128MAX = "340282366920938463463374607431768211455"
   MINLIQ = "1000"
   Users = {"user1", "user2", "user3"}
-  StrictNested = FALSE
+  StrictNested = TRUE
 POSTCONDITION Consumed
 CHECK_DEADLOCK FALSE
